@@ -2974,3 +2974,28 @@ TT("C01", "twin-next-path-direct-returns", [
     )
 '''),
 ], "early returns instead of assignments joined by one return")
+
+# ---- R1.27 faithful records
+LTY = "loop_detection/loop_types.py"
+M("C01", "record-attribute-never-assigned", NODE,
+  "        self.uid = uid\n", "", "R1.27", "Node.uid is read but not assigned")
+M("C01", "record-default-drops-given-value", NODE,
+  "        self.incoming = [] if incoming is None else incoming",
+  "        self.incoming = [] if incoming is not None else incoming",
+  "R1.27", "a given list of incoming nodes is replaced by the default")
+M("C01", "record-write-once-setter-inverted", LTY,
+  "        if self._start_uid is None:\n            self._start_uid = start_uid",
+  "        if self._start_uid is not None:\n            self._start_uid = start_uid",
+  "R1.27", "the start uid can only be set when it is already set")
+M("C01", "record-getter-guard-inverted", LTY,
+  "        if self._end_uid is None:\n            raise AttributeError(\"end_uid is not set.\")",
+  "        if self._end_uid is not None:\n            raise AttributeError(\"end_uid is not set.\")",
+  "R1.27", "the getter raises exactly when the value is there")
+M("C01", "record-base-not-initialised", PG,
+  "        self.subgraph_nodes: set[PUMLEventNode] = set()\n        super().__init__()",
+  "        self.subgraph_nodes: set[PUMLEventNode] = set()",
+  "R1.27", "the DiGraph base of PUMLGraph is never initialised")
+T("C01", "twin-record-default-other-spelling", NODE,
+  "        self.incoming = [] if incoming is None else incoming",
+  "        self.incoming = incoming if incoming is not None else []",
+  "same default handling, arms swapped")
